@@ -36,6 +36,7 @@ type run struct {
 	cases  []pendingCase
 	opIdx  int // operations performed so far (the generator is deterministic in the seed)
 	stopAt int // replay by regeneration: stop after this many operations (0 = no limit)
+	abort  bool // block-sync family: the ledger no longer matches the shadow (after a reported failure)
 }
 
 // regen names a case by position in the deterministic generation (used for correspondence
@@ -314,6 +315,9 @@ func Run(c *hx.Ctx) {
 	r.witnessOverwrite()
 	r.fresh("rejected-poison")
 	r.probeRejectedPoison()
+	r.fresh("blocksync")
+	r.blockSync(c.N(9, 30))
+	r.abort = false
 	// one chain in the quick tier, several independent ones (fresh ledger, fresh keys) in the thorough tier
 	for chain := 0; chain < c.N(1, 8); chain++ {
 		r.fresh("main")
@@ -354,6 +358,10 @@ func (r *run) replay(sc scenario) {
 			r.doAdd(st.Spec, "replay")
 		case "addblock":
 			r.doAddBlock(st.Spec, "replay")
+		case "block-AddBlock":
+			r.doBlock(st.Spec, "AddBlock", "replay")
+		case "block-SubmitBlock":
+			r.doBlock(st.Spec, "SubmitBlock", "replay")
 		default:
 			r.doVerify(st.Spec, "replay")
 		}
